@@ -27,6 +27,11 @@ def run(ctx, chk):
     chk.not_decided = ["the numeric value bitvec's load_le/store produce on regions straddling words", "contents of dead bits beyond the length in the last word"]
     chk.assumptions = ["bitvec 1.1.1 model rows: from_bitslice/to_bitvec/clone copy the argument's head, with_capacity/new/from_slice/from_vec are aligned, "
                        "extend/truncate/drain keep the receiver's head, force_align aligns", "native-endian `store` equals store_le on the analysed little-endian target"]
+    bv = ctx.bitvec_version()
+    chk.cfg = None
+    chk.ob("model-pin", "bitvec", bv is not None and bv.startswith("1.1."),
+           "Cargo.lock pins bitvec %s; the head/extent model rows this check relies on were read from bitvec 1.1.x and are not established for another version" % bv,
+           "Cargo.lock", kind="cannot-establish", sample={"bitvec": bv})
     for cfg in ctx.configs():
         chk.cfg = cfg.name
         chk.configs.append(cfg.name)
